@@ -9,12 +9,20 @@
 (*    effective start  Eff   = the requested offset, or the next static segment start above it     *)
 (*    segment i lies at      Off(i) = Pos(i) - Eff   and occupies exactly its payload length        *)
 (*    every other byte up to the end of the last segment is the fill pattern.                      *)
+(* A segment kind with a nominal size (`size` > 0: key blob, FCB, key store, BEE header, XMCD ...)  *)
+(* owns a SLOT of that many bytes; its payload falls in one of three LENGTH CLASSES - shorter than  *)
+(* the slot, nominal, longer (up to the next table offset).  Behind a short payload the rest of the *)
+(* slot was not supplied by anybody: it is gap like the bytes between two slots and carries the     *)
+(* device's pattern (not the padding of some intermediate buffer).  The reader says of every gap    *)
+(* how many of its leading bytes are such a slot rest (`rest`), so that the clause is bound to the  *)
+(* bytes of the real image separately.                                                             *)
 (* The state machine below is the READER of such an image: Build (or Refuse when no segment lies   *)
 (* at or behind the requested start), then Gap / Seg steps that move a cursor through the image,   *)
 (* End at the total length, Parse, one ParseSeg per included segment, Done.  Real executions are   *)
 (* bound to these actions by BimgTrace; BimgMC enumerates the cases and checks the lemmas.         *)
 EXTENDS Integers, Sequences, FiniteSets, TLC, Json, IOUtils
-Tables == JsonDeserialize(IOEnv.TABLE_FILE)     \* <<[sig, pat, segs : <<[name, off, size, al, opt, raw, lens]>>]>>
+Tables == JsonDeserialize(IOEnv.TABLE_FILE)     \* <<[sig, pat, segs : <<[name, off, size, al, opt, raw, fixed, lens]>>]>>
+                                                \* fixed: parse returns exactly `size` bytes (raw: opaque as well)
 VARIABLES tb,     \* index of the table
           cs,     \* the case: [present : Seq(BOOLEAN), plen : Seq(Nat), req : Nat]
           ph,     \* "new" -> "walk" -> "parse" -> "psegs" -> "done"   |   "new" -> "refused"
@@ -49,15 +57,26 @@ Included(i) == cs.present[i] /\ Pos(i) >= Eff
 Off(i) == Pos(i) - Eff                  \* offset in the exported image
 Inc == { i \in S : Included(i) }
 NextInc(k) == IF { i \in Inc : i > k } = {} THEN Len(Segs) + 1 ELSE Min({ i \in Inc : i > k })
-\* an opaque fixed-size block longer than its nominal size cannot come back whole: outside the asserted domain of parse
-ParseAsserted(i) == ~(Segs[i].raw /\ cs.plen[i] > Segs[i].size)
+PrevInc(k) == IF { i \in Inc : i < k } = {} THEN 0 ELSE Max({ i \in Inc : i < k })
+\* ---- length classes of a payload of n bytes for segment i of table sg (part of the case space: BimgMC enumerates every class of every
+\*      segment kind that has a nominal size, on every table - i.e. with either fill pattern the device database knows for that kind)
+LenClassIn(sg, i, n) == IF sg[i].size = 0 THEN "free" ELSE IF n < sg[i].size THEN "short" ELSE IF n = sg[i].size THEN "nominal" ELSE "long"
+LenClass(i) == LenClassIn(Segs, i, SegLen(i))
+\* the unused rest of the slot of included segment i: zero for a free / nominal / long payload
+Unused(i) == IF Segs[i].size > SegLen(i) THEN Segs[i].size - SegLen(i) ELSE 0
+\* how many leading bytes of the gap in front of included segment k are the unused rest of its predecessor's slot
+SlotRest(k) == LET p == PrevInc(k) IN IF p = 0 THEN 0 ELSE Min({ Off(k) - (Off(p) + SegLen(p)), Unused(p) })
+\* ... and the same seen from the segment that leaves the rest behind (0 for the last segment: the image ends with its payload)
+RestBehind(i) == IF NextInc(i) \in S THEN SlotRest(NextInc(i)) ELSE 0
+\* a fixed-size block longer than its nominal size cannot come back whole (parse cuts it at the size): outside the asserted domain of parse
+ParseAsserted(i) == ~(Segs[i].fixed /\ cs.plen[i] > Segs[i].size)
 
 Refuse == /\ ph = "new" /\ Refused /\ ph' = "refused"
           /\ act' = [a |-> "Build", refused |-> TRUE, eff |-> 0] /\ UNCHANGED <<tb, cs, cur, nx>>
 Build == /\ ph = "new" /\ ~Refused /\ ph' = "walk" /\ cur' = 0 /\ nx' = NextInc(0)
          /\ act' = [a |-> "Build", refused |-> FALSE, eff |-> Eff] /\ UNCHANGED <<tb, cs>>
 Gap == /\ ph = "walk" /\ nx \in S /\ Off(nx) > cur /\ cur' = Off(nx)
-       /\ act' = [a |-> "Gap", from |-> cur, to |-> Off(nx)] /\ UNCHANGED <<tb, cs, ph, nx>>
+       /\ act' = [a |-> "Gap", from |-> cur, to |-> Off(nx), rest |-> SlotRest(nx)] /\ UNCHANGED <<tb, cs, ph, nx>>
 Seg == /\ ph = "walk" /\ nx \in S /\ Off(nx) = cur /\ cur' = cur + SegLen(nx) /\ nx' = NextInc(nx)
        /\ act' = [a |-> "Seg", i |-> nx, at |-> cur, len |-> SegLen(nx)] /\ UNCHANGED <<tb, cs, ph>>
 End == /\ ph = "walk" /\ nx \notin S /\ ph' = "parse" /\ nx' = NextInc(0)
@@ -81,5 +100,14 @@ InitSnap == ~Refused => /\ (cs.req = 0 => Eff = 0)
                         /\ (cs.req > 0 => Eff \in StaticOffs /\ Eff >= cs.req /\ \A o \in StaticOffs : o >= cs.req => Eff <= o)
 FirstAtZero == ~Refused /\ cs.req > 0 /\ (\E i \in Inc : Static(i) /\ Segs[i].off = Eff) => \E i \in Inc : Off(i) = 0
 CursorMonotone == ph = "walk" /\ nx \in S => Off(nx) >= cur
+\* the rest of a slot is gap: it lies between the payload and the next included segment, and nothing else lies there
+SlotRestIsGap == ph \in {"new", "live"} =>          \* depends on table and case only: evaluated once per case / after every change of a live object
+                 \A i \in Inc : LET r == RestBehind(i)
+                                     e == Off(i) + SegLen(i)
+                                     n == NextInc(i)
+                                 IN /\ r <= Unused(i)
+                                    /\ (n \in S => e + r <= Off(n))
+                                    /\ (n \in S /\ LenClass(i) = "short" /\ Off(n) > e => r > 0)
+                                    /\ \A j \in Inc : ~(e <= Off(j) /\ Off(j) < e + r)
 TotalIsEnd == ph \in {"parse", "psegs", "done"} => Inc # {} /\ cur = Max({ Off(i) + SegLen(i) : i \in Inc })
 =============================================================================
